@@ -6,7 +6,7 @@ bytes, timer, faults); what the client does with it is recorded by the harness a
 import json
 import random
 
-SUBS = ["player", "mixer", "playlist", "zzfuture", "options", "stored_playlist"]
+SUBS = ["player", "mixer", "playlist", "zzfuture", "options", "stored_playlist", "Player", "MIXER", "custom_Thing"]   # names are reported verbatim, whatever their letter case
 
 
 def rand_cmds(rng, maxn):
@@ -92,6 +92,13 @@ def base(rng, run):
 
 
 def faults(rng, run):
+    if rng.random() < 0.08:
+        # the stream ends on a line boundary inside the reply to the FIRST request of an album-art load
+        s = art(rng, run)
+        s["cfg"].pop("max_read", None)
+        s["batches"] = [[{"op": "issue", "c": 0, "kind": "art"}], [{"op": "deliver"}], [{"op": "deliver", "units": 2 * rng.randint(1, 3)}, {"op": "fault", "kind": "eof"}],
+                        [{"op": "deliver"}], [{"op": "timeout"}]]
+        return s
     if rng.random() < 0.2:
         # the stream ends on a LINE boundary inside the reply to a command list (after j complete lines, among them the
         # list_OK separators): a whole number of lines was received, yet the response is not complete
@@ -268,7 +275,46 @@ def long(rng, run):
     return {"run": run, "cfg": cfg, "batches": batches}
 
 
-PROFILES = {"base": base, "faults": faults, "handshake": handshake, "art": art, "tlists": tlists, "long": long}
+def burst(rng, run):
+    """Many requests at once: 4 - 8 clones issue 35 - 70 requests in ONE step (internal queues fill up), then everything is delivered."""
+    nc = rng.choice([4, 6, 8])
+    cfg = {"callers": nc, "split_seed": rng.getrandbits(48) | 1}
+    batches = rand_batches(rng, nc, rng.randint(0, 4), allow_drop=False)
+    batches = [b for b in batches if not any(st["op"] in ("wstall", "wresume") for st in b)]
+    n = rng.randint(35, 70)
+    batches.append([{"op": "issue", "c": rng.randrange(nc), "kind": "raw", "cmds": rand_cmds(rng, 1)} if rng.random() < 0.8 else
+                    {"op": "issue", "c": rng.randrange(nc), "kind": "list", "cmds": rand_cmds(rng, 3)} for _ in range(n)])
+    for _ in range(2 * n + 8):
+        batches.append([{"op": "deliver"}] if rng.random() < 0.9 else [{"op": "change", "subs": rng.sample(SUBS, 1)}, {"op": "deliver"}])
+    return {"run": run, "cfg": cfg, "batches": batches}
+
+
+def lazy(rng, run):
+    """The application keeps the ConnectionEvents receiver but does not poll it while the server reports 70 - 130 changes (a backlog
+    builds up), now and then a request; then it reads everything. Some runs end with a fault while the backlog is still unread."""
+    cfg = {"callers": 1, "split_seed": rng.getrandbits(48) | 1, "lazy_events": True}
+    batches = []
+    total = 0
+    want = rng.randint(70, 130)
+    while total < want:
+        subs = rng.sample(SUBS, rng.choice([1, 1, 2, 3]))
+        total += len(subs)
+        batches.append([{"op": "change", "subs": subs}])
+        batches.append([{"op": "deliver"}])
+        if rng.random() < 0.08:
+            batches.append([{"op": "issue", "c": 0, "kind": "raw", "cmds": [{}]}])
+            batches.append([{"op": "deliver"}])
+            batches.append([{"op": "deliver"}])
+        if rng.random() < 0.1:
+            batches.append([{"op": "timeout"}])
+    if rng.random() < 0.5:
+        batches.append([{"op": "fault", "kind": rng.choice(["garbage", "rerr", "eof"])}] if rng.random() < 0.7
+                       else [{"op": "change", "subs": ["player"]}, {"op": "deliver", "bytes": 5}, {"op": "fault", "kind": "eof"}])
+        batches.append([{"op": "deliver"}])
+    return {"run": run, "cfg": cfg, "batches": batches}
+
+
+PROFILES = {"burst": burst, "lazy": lazy, "base": base, "faults": faults, "handshake": handshake, "art": art, "tlists": tlists, "long": long}
 
 
 def generate(profile, n, seed, start=0):
